@@ -324,6 +324,7 @@ func (obj JsonWebEncryption) Decrypt(decryptionKey interface{}) ([]byte, error) 
 	authData := obj.computeAuthData()
 
 	var plaintext []byte
+	var success bool
 	for _, recipient := range obj.recipients {
 		recipientHeaders := obj.mergedHeaders(&recipient)
 
@@ -332,12 +333,14 @@ func (obj JsonWebEncryption) Decrypt(decryptionKey interface{}) ([]byte, error) 
 			// Found a valid CEK -- let's try to decrypt.
 			plaintext, err = cipher.decrypt(cek, authData, parts)
 			if err == nil {
+				success = true
 				break
 			}
 		}
 	}
 
-	if plaintext == nil {
+	// The plaintext is nil for an empty payload, which is not a failure.
+	if !success {
 		return nil, ErrCryptoFailure
 	}
 
